@@ -109,6 +109,22 @@ def with_values(content, kvs):
     return out
 
 
+# --------------------------------------------------------------------------- a function for `parallelise` itself
+
+
+def toy_fn(x):
+    """mirrored by the driver (`H_c09.runPar`): negative -> ValueError, otherwise 2*x; an input >= 1000 sleeps far
+    longer than any timeout the harness uses (such a task is cancelled by the pool)"""
+    import time
+
+    if x < 0:
+        msg = "toy_fn"
+        raise ValueError(msg)
+    if x >= 1000:
+        time.sleep(600)
+    return 2 * x
+
+
 # --------------------------------------------------------------------------- toy integrator
 
 
